@@ -32,7 +32,7 @@ ASSUMPTIONS = ['models are built with the script\'s own lag/lead lengths (no sma
 TECHNIQUE = 'Hypothesis grammar-based models x exhaustive positions; frame oracle (byte-identical untouched cells), recording arrays, padded-twin differential'
 LEVEL_TEXT = ('Each generated model is solved at every position of spans of several lengths; what changed and what was read are '
               'compared with the reference read/write sets, and a padded twin detects values served from the opposite end.')
-LEVEL_NOTE = 'Trusted: reference read/write sets from the generator tree, recording arrays. Not covered: verbatim code, the Fortran engine in the quick tier.'
+LEVEL_NOTE = 'Trusted: reference read/write sets from the generator tree, recording arrays. Not covered: verbatim code.'
 
 SOLVE_KW = {'max_iter': 3, 'failures': 'ignore', 'errors': 'ignore'}
 
@@ -186,8 +186,8 @@ def check_solve_range(case):
     origin = case.get('origin', 100)      # labels origin..origin+n-1: 0 and negative labels are ordinary period labels
     if origin <= 0:
         res.tag('span-with-label-0')
-    for p0 in [None] + list(range(L, n - K)):
-        for p1 in [None] + list(range(L, n - K)):
+    for p0 in [None] + list(range(n)):
+        for p1 in [None] + list(range(n)):
             m, data = fresh(M, ref, n, bases, origin=origin)
             kw = dict(SOLVE_KW)
             if p0 is not None:
@@ -195,24 +195,43 @@ def check_solve_range(case):
             if p1 is not None:
                 kw['end'] = origin + p1
             out = R.quiet_call(attempt, m.solve, **kw)
-            a = L if p0 is None else p0
-            b = n - 1 - K if p1 is None else p1
-            periods = set(range(a, b + 1))
-            cells = set()
-            for T in periods:
-                cells |= assigned_cells(ref, T)
             detail = f'{text!r} LAGS={L} LEADS={K} n={n} span from {origin}: solve(start={None if p0 is None else origin + p0}, end={None if p1 is None else origin + p1})'
-            if out.ok:
-                if list(out.value[1]) != sorted(periods):
-                    res.fail('solve/periods-visited', f'{detail}: visited {list(out.value[1])}, expected {sorted(periods)}')
-                    return res
-                if not compare_frame(res, 'solve', m, data, ref, n, cells, periods, detail):
-                    return res
-            else:
-                # a raising period: everything outside the requested range must still be untouched
-                if not compare_frame(res, 'solve-raised', m, data, ref, n, cells, periods, detail):
-                    return res
+            if not range_outcome(res, 'solve', m, data, ref, n, L, K, p0, p1, out, detail):
+                return res
     return res
+
+
+def range_outcome(res, key, m, data, ref, n, L, K, p0, p1, out, detail):
+    """solve(start, end) on either engine: the periods in order; an explicitly requested period that cannot accommodate the
+    lags/leads must be refused when it is reached (the feasible periods in front of it may have been solved)."""
+    a = L if p0 is None else p0
+    b = n - 1 - K if p1 is None else p1
+    requested = list(range(a, b + 1))
+    infeasible = [T for T in requested if not L <= T <= n - 1 - K]
+    periods = set(requested) if not infeasible else set(range(a, infeasible[0]))
+    cells = set()
+    for T in periods:
+        cells |= assigned_cells(ref, T)
+    if infeasible:
+        res.tag('range-with-infeasible-period')
+        res.nontrivial = True
+        if out.ok:
+            side = 'front' if infeasible[0] < L else 'back'
+            res.fail(f'{key}/infeasible-period-served/{side}', f'{detail}: returned {out.value!r} although period position '
+                     f'{infeasible[0]} cannot accommodate the lags/leads')
+            return False
+        if infeasible[0] == a and not isinstance(out.exc, IndexError):
+            # (when feasible periods come first, one of them may legitimately have raised something else before)
+            res.fail(f'{key}/infeasible-period/not-IndexError', f'{detail}: {out!r}')
+            return False
+        return compare_frame(res, f'{key}-infeasible', m, data, ref, n, cells, periods, detail)
+    if out.ok:
+        if list(out.value[1]) != sorted(periods):
+            res.fail(f'{key}/periods-visited', f'{detail}: visited {list(out.value[1])}, expected {sorted(periods)}')
+            return False
+        return compare_frame(res, key, m, data, ref, n, cells, periods, detail)
+    # a raising period: everything outside the requested range must still be untouched
+    return compare_frame(res, f'{key}-raised', m, data, ref, n, cells, periods, detail)
 
 
 def check_rejected(case):
@@ -291,6 +310,22 @@ def check_fortran(case):
             continue
         if not compare_frame(res, 'fortran/solve_t', m, data, ref, n, assigned_cells(ref, T), {T}, detail):
             return res
+    # solve(start, end), every pair of positions (the wrapper hands the whole range to the compiled loop)
+    for p0 in [None] + list(range(n)):
+        for p1 in [None] + list(range(n)):
+            data = R.make_data(ref.names, n, case.get('bases') or [[1.0, 2.0, 0.5, 4.0]])
+            for k in data:
+                data[k] = np.abs(data[k]) % 3.0 + 0.5
+            m = F(range(100, 100 + n), **{k: v.copy() for k, v in data.items()})
+            kw = dict(SOLVE_KW)
+            if p0 is not None:
+                kw['start'] = 100 + p0
+            if p1 is not None:
+                kw['end'] = 100 + p1
+            out = R.quiet_call(attempt, m.solve, **kw)
+            detail = f'[Fortran engine] {text!r} LAGS={L} LEADS={K} n={n}: solve(start={kw.get("start")}, end={kw.get("end")})'
+            if not range_outcome(res, 'fortran/solve', m, data, ref, n, L, K, p0, p1, out, detail):
+                return res
     return res
 
 
@@ -332,7 +367,7 @@ def selfcheck():
 
 def phases(tier):
     quick = tier == 'quick'
-    extra = [] if quick else [Phase('fortran-engine', check_fortran, strategy=strat_fortran, examples=300, native=True)]
+    extra = [Phase('fortran-engine', check_fortran, strategy=strat_fortran, examples=64 if quick else 400, native=True)]
     return extra + [
         Phase('positions-enumerated', check_solve_t, gen=gen_enumerated(3 if quick else 4), exhaustive=True),
         Phase('positions', check_solve_t, strategy=strategy(), examples=1200 if quick else 12000),
